@@ -9,7 +9,7 @@ import (
 	"verif/internal/harness"
 )
 
-const ruleFetch = "Fetcher.Run in a synctest bubble (-race) against a scripted log: tree 0-130 entries (thorough 0-650) growing in 0-4 steps of virtual time, start 0 / inside / at / beyond tree size (incl. trees approaching StartIndex in short steps), end 0 / inside / beyond / below start, batch 1-50 or near MaxInt64, 1-6 fetchers, one-shot or continuous, per-start-index finite error bursts (429, 503, 500, network, EOF, timeout, gRPC Unavailable), short reads 1..asked, request latencies 0-10 min, callback latencies 0-60 ms, get-sth error bursts of every kind (incl. on the polls of continuous mode), Stop() (from outside or from inside the N-th callback) or cancel at a drawn instant, after the settling period, or never; options literal or from the package defaults (after 0-2 earlier default-built fetches on other logs); optionally Stop() before the first Run and a second Run on the same Fetcher, every oracle applied per call. Non-trivial: a short read, an error burst, >= 2 fetchers, or growth seen during the run"
+const ruleFetch = "Fetcher.Run in a synctest bubble (-race) against a scripted log (behind the scanner.LogClient interface or behind the real client.LogClient over in-process HTTP): tree 0-130 entries (thorough 0-650) growing in 0-4 steps of virtual time, start 0 / inside / at / beyond tree size (incl. trees approaching StartIndex in short steps), end 0 / inside / beyond / below start, batch 1-50 or near MaxInt64, 1-6 fetchers, one-shot or continuous, per-start-index finite error bursts (429, 503, 500, network, EOF, timeout, gRPC Unavailable, wrapped Canceled, 200 with cut / garbled body), short reads 1..asked, request latencies 0-10 min, callback latencies 0-60 ms, get-sth error bursts of every kind (incl. on the polls of continuous mode), Stop() (from outside or from inside the N-th callback) or cancel at a drawn instant, after the settling period, or never; options literal or from the package defaults (after 0-2 earlier default-built fetches on other logs); optionally Stop() before the first Run and a second Run on the same Fetcher, every oracle applied per call. Non-trivial: a short read, an error burst, >= 2 fetchers, or growth seen during the run"
 const ruleScan = "Scanner.Scan over the same scripted logs with real leaves (36 generated certificates / precertificates, 6 that parse only with a non-fatal error, 6 with unparsable certificates), matcher in {MatchAll, MatchNone, MatchSerialNumber, custom serial predicate, custom LeafMatcher, MatchSCTTimestamp, CertParseFailMatcher with and without MatchNonFatalErrs}, PrecertOnly on/off, 1-6 matcher workers, buffer 0-100, cancel at a drawn instant / after settling / never; optionally a second Scan on the same Scanner. Non-trivial: as for fetch"
 
 var Fetch = harness.Define(harness.Opts{Name: "fetch", Rule: ruleFetch, Quick: 3000, Thorough: 15000, Crashy: true}, genFetch, checkFetch)
